@@ -9,13 +9,16 @@ import flow
 import gen
 import mockca
 import vlib
+from ext import idnagen
 
 FINISH = dict(
     level="proof",
     trusted_base=[
         "Lean 4.33 kernel; axioms of every theorem within {propext, Classical.choice, Quot.sound}",
         "Lean compiler for acmed_model (Model.Jose recomputes every proof with its own SHA-256 and base64url; "
-        "Model.Ident.lookup; judge Spec.C05.holds)",
+        "Model.Ident.lookup; judge Spec.C05.holds; Model.Lower / Model.Idna for the A-labels of identifiers configured in "
+        "Unicode / mixed case (py/ext/idnagen.py pool; lower-casing tables regenerated from the compiled std), which the "
+        "lookups are queried by, as a CA names them)",
         "the in-crate probe ops proof / lookup / ident; the real daemon against the mock CA with the hook "
         "recorder (one monotonic clock for hook and request records); the JWK thumbprint input recomputed in "
         "Python from the account key on the CA's record",
@@ -85,11 +88,15 @@ def lookups_part(ctx):
     rng = ctx.rng
     n = 500 if ctx.quick() else 20000
     names = ["example.org", "a.example.org", "b.example.org", "example.net", "192.0.2.7", "2001:db8::1"]
+    # names configured in Unicode / mixed case: the CA's authorization carries the A-label (the MODEL's to_idna,
+    # after the real to_idna, the model and the independent judge agreed on it)
+    norm = {x["raw"]: x["alabel"] for x in idnagen.pool(ctx, 8 if ctx.quick() else 150, wildcard_ok=False, prefix="lookup-names:")}
+    names += sorted(norm)
     ops = []
     for _ in range(n):
         ids = []
         for nm in rng.sample(names, rng.randint(1, 5)):
-            ip = nm[0].isdigit() or ":" in nm
+            ip = nm not in norm and (nm[0].isdigit() or ":" in nm)
             if not ip and rng.random() < 0.5:
                 ids.append({"type": "dns", "value": "*." + nm, "challenge": "dns-01"})
                 if rng.random() < 0.6:
@@ -98,13 +105,21 @@ def lookups_part(ctx):
                 ids.append({"type": "ip" if ip else "dns", "value": nm, "challenge": rng.choice(["http-01", "tls-alpn-01"])})
         rng.shuffle(ids)
         q = rng.choice(names + ["other.example"])
+        q = norm.get(q, q)
         ops.append({"op": "lookup", "ids": ids, "identifier": q, "wildcard": rng.random() < 0.5 and ":" not in q})
     impl = vlib.probe(ops)
+
+    def normal(v):
+        return "*." + norm[v[2:]] if v.startswith("*.") and v[2:] in norm else norm.get(v, v)
+    # the model works on the identifiers as Identifier::new stores them: DNS values through (the model's) to_idna
+    ops = [dict(op, ids=[dict(x, value=normal(x["value"])) for x in op["ids"]]) for op in ops]
     mod = vlib.model(ops)
     for op, i, m in zip(ops, impl, mod):
         both = any(x["value"] == "*." + op["identifier"] for x in op["ids"]) and any(x["value"] == op["identifier"] for x in op["ids"])
         ctx.case({"lookup": op}, nontrivial=both or op["wildcard"])
         ctx.count("lookup:both-entries=%s wildcard=%s" % (both, op["wildcard"]))
+        if op["identifier"].startswith("xn--") or ".xn--" in op["identifier"]:
+            ctx.count("lookup:idn-query:" + ("found" if isinstance(i, dict) and "found" in i else "not-found"))
         if i != m:
             ctx.disagreements += 1
             wanted = ("*." if op["wildcard"] else "") + op["identifier"]
@@ -445,6 +460,7 @@ def run(ctx):
     vlib.build_acmed()
     vlib.build_helper()
     gen.gen_tables()
+    gen.gen_lower()
     ctx.prove()
     helper = mockca.Helper()
     root = os.path.join(vlib.BUILD, "scratch", "c05-%d" % os.getpid())
@@ -472,6 +488,8 @@ def run(ctx):
 
 
 def replay(ctx):
+    if idnagen.is_replay(ctx.replay):
+        return idnagen.replay_file(ctx.replay)
     with open(ctx.replay) as f:
         r = json.load(f)
     obj = r.get("replay", r)
